@@ -390,3 +390,34 @@ func substOrigin(v ssa.Value, subst map[ssa.Value]ssa.Value) ssa.Value {
 	}
 	return nil
 }
+
+// fieldWrittenBy: h stores into field `field` of its struct-pointer parameter prm, or passes that parameter on to a
+// module function that does.
+func fieldWrittenBy(h *ssa.Function, prm, field, depth int) bool {
+	if h == nil || h.Blocks == nil || depth > 4 {
+		return false
+	}
+	found := false
+	eachInstr(h, func(_ *ssa.BasicBlock, _ int, ins ssa.Instruction) {
+		if found {
+			return
+		}
+		switch x := ins.(type) {
+		case *ssa.Store:
+			if fa, ok := x.Addr.(*ssa.FieldAddr); ok && fa.Field == field && stripConv(fa.X) == ssa.Value(h.Params[prm]) {
+				found = true
+			}
+		case ssa.CallInstruction:
+			g := x.Common().StaticCallee()
+			if g == nil || !InModule(g) {
+				return
+			}
+			for ai, a := range x.Common().Args {
+				if stripConv(a) == ssa.Value(h.Params[prm]) && fieldWrittenBy(g, ai, field, depth+1) {
+					found = true
+				}
+			}
+		}
+	})
+	return found
+}
